@@ -17,6 +17,7 @@ def main():
     nv.build_codec('h')
     nv.build_util()
     nv.build_pair('x')
+    nv.build_pair('f')
     nv.build_single('life', 'life_main.cpp')
     print('setup ok')
 
